@@ -55,6 +55,8 @@ DESIGN_REF = "DESIGN.md section 5, C06"
 def gen(tier, rng):
     for x in initgen.c06_scripts(rng, tier == "thorough"):
         yield x
+    # the advertised set is the configured set, whatever the order and spelling of the user's list
+    yield initgen.cfg_algos_script(rng.fork("cfg"), "cfg-algos", tier == "thorough")
     # node level: unencrypted sessions only where both ends enabled 'plain'; no common cipher => no connection
     r = rng.fork("node")
     yield nodegen.plain_script(r, "node-plain-mixed", [True, False, "only"])
